@@ -2,7 +2,7 @@
 //! and the accepted deviants of families A/B).
 use crate::engine::*;
 use crate::families::*;
-use crate::reexport::judge_calls;
+use crate::reexport::{judge_calls, judge_calls_ex};
 use serde_json::json;
 use std::sync::Arc;
 
@@ -26,7 +26,7 @@ fn fam_space(f: Arc<dyn Family>) -> Box<dyn Space> {
 
 pub fn spaces(tier: &str) -> Vec<Box<dyn Space>> {
     let thorough = tier == "thorough";
-    let mut v: Vec<Box<dyn Space>> = super::c05::streams(tier).into_iter().map(|g| g.into_space(|c| judge_calls(c, 10))).collect();
+    let mut v: Vec<Box<dyn Space>> = super::c05::streams(tier).into_iter().map(|g| g.into_space(|c| judge_calls_ex(c, 10, true))).collect();
     v.push(fam_space(family_a_ipfix(if thorough { 40 } else { 16 })));
     v.push(fam_space(family_b1(all_seeds(true, if thorough { 100_000 } else { 200 }), if thorough { 5 } else { 3 })));
     v.push(fam_space(family_b_struct()));
